@@ -67,12 +67,22 @@ def build(run) -> str | None:
     env = dict(os.environ, CARGO_NET_OFFLINE="true", CARGO_TARGET_DIR=TARGET,
                RUSTFLAGS="--cfg besok_jsonpath_rust_verif -A unexpected_cfgs -A warnings")
     t0 = time.time()
-    p = subprocess.run(["cargo", "build", "--offline", "-q"], cwd=runner, env=env, capture_output=True, text=True)
+    # the target directory is a shared build cache for the dependencies; the runner binary it produces is copied into
+    # this run's scratch directory under a lock, so that concurrent checks (other trees!) never run each other's binary
+    import fcntl, shutil
+    os.makedirs(TARGET, exist_ok=True)
+    with open(os.path.join(TARGET, ".verif-lock"), "w") as lock:
+        fcntl.flock(lock, fcntl.LOCK_EX)
+        p = subprocess.run(["cargo", "build", "--offline", "-q"], cwd=runner, env=env, capture_output=True, text=True)
+        built = os.path.join(TARGET, "debug", "verif-native-runner")
+        if p.returncode == 0:
+            shutil.copy2(built, os.path.join(run.scratch, "verif-native-runner"))
+        fcntl.flock(lock, fcntl.LOCK_UN)
     run.native_build_s = time.time() - t0
     if p.returncode != 0:
         run.undecided.append("native back end does not build against this tree: " + p.stderr[-600:].replace("\n", " | "))
         return None
-    run._native_bin = os.path.join(TARGET, "debug", "verif-native-runner")
+    run._native_bin = os.path.join(run.scratch, "verif-native-runner")
     return run._native_bin
 
 
